@@ -4,7 +4,7 @@ from ..chain import *
 from .. import gen, core, run
 THEOREMS = core.pinned('C10')
 FILECB = ['csv', 'unspent', 'balances']
-STEMS = {'csv': ['blocks', 'transactions', 'tx_in', 'tx_out'], 'unspent': ['unspent'], 'balances': ['balances']}
+STEMS = run.stems()
 
 def limit_preexec(n):
     def f():
@@ -44,8 +44,8 @@ def explore(ck):
     for c in chains:
         base = run.run_model(ck.tools, [c], ['csv', 'unspent', 'balances'])[c.id]
         sizes = {'csv': [sum(len(x) + 1 for x in base['csv'][i]) for i in range(4)],
-                 'unspent': [len('txid;indexOut;height;value;address\n') + sum(len(x) + 1 for x in base['unspent'])],
-                 'balances': [len('address;balance\n') + sum(len(x) + 1 for x in base['balance'])]}
+                 'unspent': [len(base['header'].get('unspent', 'txid;indexOut;height;value;address') + '\n') + sum(len(x) + 1 for x in base['unspent'])],
+                 'balances': [len(base['header'].get('balances', 'address;balance') + '\n') + sum(len(x) + 1 for x in base['balance'])]}
         # undisturbed runs
         dd = os.path.join(ck.tools.work, 'dd10_' + c.id); c.materialise(dd, ck.tools.ldbw)
         clean = {cb: run.run_impl(ck.tools, c, cb, datadir=dd) for cb in FILECB}
